@@ -1,3 +1,13 @@
 // C14 harness, one group of instantiations: static_vector<int,N> and static_string<N>, N = 1, 2, 3, 8
 #include "C14/twin_p.h"
 C14_FACTORY(small_rest)
+namespace
+{
+    char premain_buf[128];
+    struct PreMain
+    {
+        PreMain() { c14::premain_probe<TwinP>(premain_buf, sizeof premain_buf); }
+    };
+    PreMain premain_obj __attribute__((init_priority(101)));
+}
+namespace c14 { const char *premain_p() { return premain_buf; } }
